@@ -242,20 +242,13 @@ func r122(c *Ctx, rule string) {
 	// listing: the closure(s) reading Router.services, entered under both locks
 	nList := 0
 	for _, cl := range withAnon(save) {
-		if cl == save {
-			continue
-		}
-		reads := false
 		for _, cs := range callsTo(cl, c.method("ServiceMap", "All")) {
-			_ = cs
-			reads = true
+			nList++
+			// the locks held where the table is listed: at the call itself (straight-line code, or a closure entered with
+			// the locks held)
+			held := li.before(cs.instr)
+			c.ob(rule, "saveStateSnapshot/listing-under-snapshot-mutex-and-read-lock in "+fname(cl), cs.pos(), held[snapLock] == modeW && held[svcLock] >= modeR, true, "the listing must be taken inside the same snapshot-mutex hold as the write (so the last write carries the latest listing), under the router's read lock; held: "+held.String())
 		}
-		if !reads {
-			continue
-		}
-		nList++
-		e := li.entryOf(cl)
-		c.ob(rule, "saveStateSnapshot/listing-under-snapshot-mutex-and-read-lock in "+fname(cl), cl.Pos(), e[snapLock] == modeW && e[svcLock] >= modeR, true, "the listing must be taken inside the same snapshot-mutex hold as the write (so the last write carries the latest listing), under the router's read lock; entry lockset: "+e.String())
 	}
 	c.ob(rule, "saveStateSnapshot/has-listing", save.Pos(), nList >= 1, false, "")
 	// the list written is the list gathered: writeStateFile's argument is the cell the listing appends to
